@@ -14,8 +14,9 @@
 
    NOT covered by this model (see ASSUMPTIONS in harness/props/c02.py): constructors other
    than fromFiber-style loading, transforms, deepcopy, populate loops (C05).  The fiber-valued
-   mutators (append / extend / __setitem__ with a fiber, fiber <<= fiber: Fiber._registerPayload
-   and _disownPayload, the S22 fix) ARE operations of the model. *)
+   mutators (append / extend / __setitem__ with a fiber or with a CoordPayload carrying a
+   coordinate and a fiber, fiber <<= fiber: Fiber._registerPayload and _disownPayload, the S22
+   fix) ARE operations of the model. *)
 From Coq Require Import ZArith List Bool Permutation.
 From FT Require Import Model.Base Model.Obs Model.Store Model.StoreCheck
                        Proofs.StoreWF Proofs.StoreCheckP Proofs.StoreMirror Proofs.StoreMirrorCheck.
@@ -39,7 +40,9 @@ Print Assumptions C02_init_mirror.
    dead fibers from their ranks), append, __setitem__, updateCoords (re-ordering the children,
    both the affine and the table form), updatePayloads, the reads, and the fiber-valued
    mutators: append(c, fiber), extend(fiber), f[pos] = fiber (the replaced sub-tree leaves the
-   ranks, the new one is registered depth-first), f <<= fiber *)
+   ranks, the new one is registered depth-first), f[pos] = CoordPayload(c, fiber) (the same
+   after the coordinate has been accepted; refused for its coordinate, the sub-tree that would
+   have been replaced is still listed and still owned), f <<= fiber *)
 Theorem C02_step_mirror : forall s o, wf_st s -> Mirror s -> Mirror (fst (step s o)).
 Proof. exact step_mirror. Qed.
 Print Assumptions C02_step_mirror.
@@ -154,4 +157,30 @@ Example C02_fiber_mutators_nonvacuous :
      = [Done RNone; Done RNone; Done RNone; Done RNone; Done RNone; Rejected; Rejected]
   /\ holds c02_checker c (model c02_checker c) = true
   /\ holds c01_checker c (model c01_checker c) = true.
+Proof. vm_compute. repeat split. Qed.
+
+(* non-vacuity for f[pos] = CoordPayload(c, fiber) on an interior fiber (OSetItemCF): refused
+   because the coordinate collides with the right neighbour - the rank lists still name the
+   sub-tree 1,2,3 -, then accepted (1,2,3 leave their ranks, the new fibers 5,6 are appended to
+   theirs, the coordinate becomes 2), refused for the left neighbour, refused with IndexError,
+   and accepted one level down *)
+Example C02_setitem_coord_fiber_nonvacuous :
+  let c := {| h_n := 3; h_d := 0;
+              h_tree := Node [(1, Node [(0, Node [(2, Leaf 5)]); (6, Node [])]); (4, Node [])];
+              h_ops := [OSetItemCF [] 0 4 (Node [(3, Node [(1, Leaf 1)])]);
+                        OSetItemCF [] 0 2 (Node [(3, Node [(1, Leaf 1)])]);
+                        OSetItemCF [] (-1) 2 (Node []);
+                        OSetItemCF [] 2 9 (Node []);
+                        OSetItemCF [2] 0 3 (Node [(1, Leaf 7)])] |} in
+  let s0 := init (h_n c) (h_d c) (h_tree c) in
+  wf_case c = true
+  /\ map (fun k => s_ranks (run s0 (firstn k (h_ops c)))) [0; 1; 2; 3; 4; 5]%nat
+     = [ [[0]; [1; 4]; [2; 3]]; [[0]; [1; 4]; [2; 3]]; [[0]; [4; 5]; [6]]; [[0]; [4; 5]; [6]];
+         [[0]; [4; 5]; [6]]; [[0]; [4; 5]; [7]] ]%nat
+  /\ map (fun k => ids k (s_root (run s0 (h_ops c)))) [0; 1; 2]%nat = [[0]; [5; 4]; [7]]%nat
+  /\ erase (s_root (run s0 (h_ops c))) = Node [(2, Node [(3, Node [(1, Leaf 7)])]); (4, Node [])]
+  /\ map (fun k => snd (step (run s0 (firstn k (h_ops c))) (nth k (h_ops c) (OGet []))))
+         [0; 1; 2; 3; 4]%nat
+     = [Rejected; Done RNone; Rejected; Rejected; Done RNone]
+  /\ holds c02_checker c (model c02_checker c) = true.
 Proof. vm_compute. repeat split. Qed.
